@@ -138,6 +138,22 @@ pub fn check_text(ctx: &mut Ctx, t: &str) -> Result<(), Violation> {
             }
         }
     }
+    // and whatever the text was, a valid rendering chosen by its fingerprint still parses to its
+    // value right afterwards (a rejected text must leave nothing behind)
+    let h = fp(&(t, "afterwards"));
+    let i = (h % 20480) as usize;
+    let promo = [None, Some(Kind::Q), Some(Kind::R), Some(Kind::B), Some(Kind::N)][i % 5];
+    let m = Mv::new(((i / 5) / 64) as u8, ((i / 5) % 64) as u8, promo);
+    let text = expected_mv(m);
+    match guarded(|| ChessMove::from_str(&text)) {
+        Ok(Ok(back)) if back == bridge::mv(m) => {}
+        other => ctx.fail("uci:roundtrip", format!("right after parsing {:?}: {:?} parses as {:?}", t, text, other.map(|r| r.map(|x| x.to_string()).map_err(|e| format!("{:?}", e)))), json!({"text": t, "then": text}))?,
+    }
+    let q = ((h >> 20) % 64) as u8;
+    match guarded(|| Square::from_str(&expected_sq(q))) {
+        Ok(Ok(back)) if back == bridge::sq(q) => {}
+        _ => ctx.fail("square:roundtrip", format!("right after parsing {:?}: square {:?} no longer parses to itself", t, expected_sq(q)), json!({"text": t, "then": expected_sq(q)}))?,
+    }
     ctx.sample(|| json!({"text": t}));
     Ok(())
 }
